@@ -43,7 +43,10 @@ def main() -> None:
                     + meta["explanation"]
                     + (" Premises restated from other properties' rules (each a necessary condition here too): " + meta["restated"] + "." if meta.get("restated") else "")
                     + " does not decide: "
-                    + meta["not_decided"],
+                    + meta["not_decided"]
+                    + " Verdicts are given for the anchored functions in their reference shape, modulo the loader's canonical spellings and renamed locals; a finding located in a function "
+                    "that changed shape (new helper or record type, changed parameters, new lookup table or field) is withheld - the run ends exit 2, 'not decided for this shape' - unless the rule "
+                    "names a positively wrong construct.",
                     "design_ref": f"DESIGN.md section 3, {pid}",
                 },
                 "level_note": "Trusted base: CPython's ast module, the checker's own resolver/normaliser (tested both ways by selftest/), "
